@@ -77,11 +77,13 @@ impl Check for C14 {
 
     fn budget(&self, tier: &str) -> u64 { if tier == "thorough" { 60_000 } else { 5_000 } }
 
-    fn generate(&self, seed: u64, _tier: &str, env: &Env) -> Trace {
+    fn generate(&self, seed: u64, tier: &str, env: &Env) -> Trace {
         let mut r = Rng::new(seed);
+        // thorough tier: half of the runs are three times as long (deeper histories)
+        let dm: u64 = if tier == "thorough" && seed % 2 == 0 { 3 } else { 1 };
         let g = SemGen::new(&env.data);
         let mut t = base_instant(&mut r, &env.host_rule);
-        let n = 6 + r.below(16);
+        let n = (6 + r.below(16)) * dm;
         let move_rate = *r.pick(&[0u64, 2, 4]);
         let zone_rate = *r.pick(&[0u64, 1, 3]);
         let session = r.chance(1, 2);
